@@ -150,6 +150,17 @@ Theorem C01_join_family_returns_under_wake_driven_executor tuple tryj scs :
   finished _ w = true /\ returned _ w /\ dropped _ w = false /\ exists ops, w = join_world true tryj tuple scs ops.
 Proof. exact (joinfam_fair_returns tuple tryj scs). Qed.
 Print Assumptions C01_join_family_returns_under_wake_driven_executor.
+(* ... and from every reachable state: after ANY history, while the join / try_join has not returned (nothing consumed yet, a child still pending)
+   and has not been dropped, B rounds suffice, B any bound on the remaining script lengths *)
+Theorem C01_join_family_returns_from_every_reachable_state tuple tryj scs ops B :
+  (forall i, i < length scs -> hasready (nth i scs []) = true) -> (forall m st, In st (nth m scs []) -> answer st <> APanic) -> 0 < length scs ->
+  let rnd := rounds jst j_slots j_awaited (fun _ i => i) j_handle tuple tuple j_order (fun _ => None) j_pre_any j_finish (fun s => s) j_drop (fun _ => true) (@no_mut jst) in
+  let w := join_world true tryj tuple scs ops in
+  finished _ w = false -> dropped _ w = false -> j_consumed (cs _ w) = false -> 0 < pending (cs _ w) ->
+  (forall j, length (nth j (scripts _ w) []) <= B) -> 1 <= B ->
+  let w' := rnd B w in finished _ w' = true /\ returned _ w' /\ dropped _ w' = false /\ exists ops', w' = join_world true tryj tuple scs ops'.
+Proof. intros Hr Hp Hn. exact (joinfam_returns_from tuple tryj scs Hr Hp Hn ops B). Qed.
+Print Assumptions C01_join_family_returns_from_every_reachable_state.
 
 (* ---- the stream form (generic part: ScanFull.next_result, for every fixed-arity instance; here merge): from the freshly constructed merge of
         n >= 1 inputs whose scripts never panic and all reach their End, the wake-driven executor obtains the first result - an item or None -
